@@ -132,7 +132,7 @@ class Gen:
 
 def leaves(t):
     k = t[0]
-    if k in ("C", "A"):
+    if k in ("C", "A", "W"):
         return [t]
     if k in ("MIN", "MAX", "OBJ"):
         return [l for c in t[2] for l in leaves(c)]
@@ -155,6 +155,8 @@ def nodes(t):
 
 
 def leaf_span(l):
+    if l[0] == "W":
+        return (l[4], l[6] + l[5] - l[4])
     return (l[4], l[5]) if l[0] == "C" else (l[3], l[4])
 
 
@@ -332,6 +334,9 @@ def driver_text(c, assigns):
         if k == "C":
             out.append("NODE %d CHOOSE e%d %d %d %d %d %d %s" % (t[1], t[1], t[3], t[4], t[5], t[6], len(t[2]),
                                                               " ".join(str(p) for p in t[2])))
+        elif k == "W":
+            out.append("NODE %d WCHOOSE e%d %d %d %d %d %d %d %d %s" % (t[1], t[1], t[3], t[4], t[5], t[6], t[7], t[8], len(t[2]),
+                                                                    " ".join(str(p) for p in t[2])))
         elif k == "A":
             out.append("NODE %d ALLOC e%d %d %d %d %s" % (t[1], t[1], t[3], t[4], len(t[2]),
                                                         " ".join("%d %d" % (p, a) for p, a in t[2])))
@@ -386,6 +391,8 @@ _VAR_RES = [
     (re.compile(r"^e(\d+)_(?:min|max)_end_time$"), 3),
 ]
 _ALLOC_RE = re.compile(r"^e(\d+)_using_partition_(\d+)_at_\d+$")
+_W_RES = [(re.compile(r"^e(\d+)_placed_at_(\d+)_for_[0-9a-f-]+$"), 0), (re.compile(r"^e(\d+)_window_indicator$"), 0),
+          (re.compile(r"^e(\d+)_start_time$"), 2), (re.compile(r"^e(\d+)_end_time$"), 3)]
 
 
 class CanonError(Exception):
@@ -400,6 +407,10 @@ def var_code(name):
         m = rx.match(name)
         if m:
             return [k, int(m.group(1)), 0]
+    for rx, k in _W_RES:      # WindowedChoose (not modelled in Coq; never reaches canon_model's comparison with `compile`)
+        m = rx.match(name)
+        if m:
+            return [k, int(m.group(1)), int(m.group(2)) + 1000 if m.lastindex == 2 else 999]
     raise CanonError("variable name not understood: %r" % name)
 
 
@@ -707,6 +718,8 @@ def run(ctx):
     # ---- the lowering as the Scheduler runs it: passes, range-based discretisation (checked, not modelled)
     run_passes_stage(ctx, exe, quick, model_ok)
     mark("passes_stage")
+    run_windowed_stage(ctx, exe, quick, model_ok)
+    mark("windowed_stage")
 
     # ---- known findings: replay the witnesses on the implementation
     replay_f13(ctx, exe)
@@ -719,6 +732,8 @@ def run_monitors(ctx, mon, model_ok, prefix="S-strl-"):
         return [[v[0], x] for v, x in zip(d["vars"], vals)]
 
     def dtext(c, vals):
+        if c.get("wtext"):
+            return c["wtext"]
         cfg = c.get("cfg")
         if cfg:
             return driver_text_cfg(c, [vals], cfg["ranges"], cfg["passes"], cfg["granularity"])
@@ -851,7 +866,7 @@ def replay_f14_one(ctx, exe, c, assignment, fid, text):
 #   * every solution of the compiled model (all of them for tiny models, enumerated with z3) is read back through the
 #     real populateResults and judged by the model-independent Gallina monitors (capacity at every time, exact
 #     amount/duration per placement, Max / LessThan structure, utility = objective);
-#   * unit discretisation + purge: every solution also satisfies the rows the pass deactivated (same feasible set);
+#   * unit discretisation + purge: the placements of every solution also satisfy the rows the pass deactivated;
 #   * optimum(model) == brute-force optimum of the expression under unit discretisation, unchanged by the pruning
 #     passes; <= brute force under coarser / range-based discretisation, where purge may only raise it.
 def f15_signature(case):
@@ -1248,6 +1263,7 @@ def run_passes_stage(ctx, exe, quick, model_ok):
         c["f13"] = (ranges is None and name != "dd" and f13_signature(c))
         c["f14"] = flt_signature(c)
         c["cfg"] = {"name": name, "ranges": ranges, "passes": passes, "granularity": g}
+        pcodes = [var_code(v[0]) for v in d["vars"]]
         for vals, s in zip(sols, o["sols"]):
             try:
                 exp = canon_solution(d, s, vals)
@@ -1259,15 +1275,18 @@ def run_passes_stage(ctx, exe, quick, model_ok):
             # purge: the deactivated rows must be implied (same feasible set)
             for r in d["rows"]:
                 if name.startswith("unit") and not r["active"] and (ti, name) not in purge_seen and len(purge_seen) < 3:
-                    lhs = sum(cf * vals[vi] for cf, vi in r["terms"])
+                    # usage of Chooses that are not read back (sub-expressions without utility stay satisfiable in the
+                    # model, with or without the pass) does not count
+                    placed = {pl[0] for pl in exp[6]}
+                    lhs = sum(cf * vals[vi] for cf, vi in r["terms"] if pcodes[vi][0] != 1 or pcodes[vi][1] in placed)
                     if not {0: lhs <= r["rhs"], 1: lhs == r["rhs"], 2: lhs >= r["rhs"]}[r["sense"]]:
                         purge_seen.add((ti, name))
                         ctx.violation("purge%d_%s" % (ti, name.replace("+", "_")),
                                       {"stream": "S-strl-passes purge", "case": c, "row": r["name"],
                                        "assignment": [[v[0], x] for v, x in zip(d["vars"], vals)], "placements": exp[6],
                                        "driver_input": driver_text_cfg(c, [vals], ranges, passes, g),
-                                       "what": "a solution of the model after the capacity-purge pass violates a capacity row the "
-                                               "pass deactivated: the pass changed the feasible set"})
+                                       "what": "the placements read back from a solution of the model after the capacity-purge pass "
+                                               "violate a capacity row the pass deactivated: the pass removed a needed constraint"})
                         break
         opt[(ti, name)] = model_optimum(d)
     ctx.cov["input_distribution"]["passes_stage"] = stats
@@ -1332,3 +1351,131 @@ def replay_f15(ctx, exe):
                          "(Expression.cpp:1915-1921): Objective[LessThan(A[0,5), Max[C[2,3)]), D[0,1)] compiles to a model with NO "
                          "solution (e3_max_start_time <= 2 but >= 5 is required), although the expression has a valid schedule of "
                          "utility %d (D alone)" % brute)
+
+
+# =========================================================================== WindowedChoose as its documented expansion
+def w_options(t):
+    """start times WindowedChooseExpression::parse emits (Expression.cpp:735-742, 799-819)"""
+    _, n, parts, amount, start, dur, end, g, util = t
+    up = lambda x: -((-x) // g) * g
+    lower, upper, tb_end = up(start), up(end), up(end + dur)
+    return [x for x in range(lower, upper + 1, g) if x + dur <= tb_end]
+
+
+def expand_w(t, unique=False):
+    """WindowedChoose -> Max over one Choose per option ("equivalent to a set of ChooseExpressions modulated by a
+    MaxExpression", Expression.hpp:158-165); the Chooses keep the name of the WindowedChoose."""
+    k = t[0]
+    if k == "W":
+        return ["MAX", t[1] + 500, [["C", (t[1] * 100 + i + 1) if unique else t[1], t[2], t[3], x, t[5], t[8]]
+                                    for i, x in enumerate(w_options(t))]]
+    if k in ("MIN", "MAX", "OBJ"):
+        return [k, t[1], [expand_w(c, unique) for c in t[2]]]
+    if k == "LT":
+        return ["LT", t[1], expand_w(t[2], unique), expand_w(t[3], unique)]
+    if k == "SC":
+        return ["SC", t[1], t[2], t[3], expand_w(t[4], unique)]
+    return t
+
+
+class WGen(PassGen):
+    def unit(self):
+        r = self.rng
+        if r.random() < 0.5:
+            self.budget -= 2
+            g = r.choice([1, 2, 2, 3])
+            start = self.pick_start()
+            parts = r.sample(self.pids, r.choice([1, len(self.pids)]))
+            return ["W", self.fresh(), parts, r.choice([1, 1, 2]), start, r.choice([1, 2, 3]), start + r.choice([0, 2, 3, 5]), g,
+                    r.choice([1, 2, 3])]
+        return PassGen.unit(self)
+
+
+F16_WITNESS_TEXT = "CASE 3 2\nPART 1 1 1\nNODE 1 WCHOOSE e1 1 0 2 6 2 1 1 1\nNODE 2 OBJ e2 1 1\nROOT 2\nEND\n"
+
+
+def run_windowed_stage(ctx, exe, quick, model_ok):
+    rng = ctx.rng
+    n_trees = 14 if quick else 250
+    cap = 24 if quick else 200
+    gen = WGen(rng)
+    ctx.rules.append("S-strl-windowed (checked, not modelled): %d tiny trees with WindowedChoose leaves; the optimum of the "
+                     "model the C++ builds equals the optimum of the model it builds for the documented expansion (Max over "
+                     "one Choose per option) and the brute-force optimum; all solutions are read back and judged by the monitors "
+                     "against the expansion" % n_trees)
+    trees = []
+    while len(trees) < n_trees:
+        c = gen.case()
+        if any(n[0] == "W" and not w_options(n) for n in nodes_w(c["tree"])):
+            continue
+        if any(n[0] == "W" for n in nodes_w(c["tree"])):
+            trees.append(c)
+    exps = [dict(c, tree=expand_w(c["tree"])) for c in trees]
+    try:
+        dw = run_driver(exe, "".join(driver_text(c, []) for c in trees), len(trees))
+        de = run_driver(exe, "".join(driver_text(dict(c, tree=expand_w(c["tree"], True)), []) for c in trees), len(trees))
+    except DriverError as e:
+        ctx.broken.append({"kind": "tie", "name": "strl-driver-windowed", "detail": str(e)[-1200:]})
+        return
+    stats = {"trees": n_trees, "solutions": 0, "optimum_checks": 0, "skipped_f14_f15": 0}
+    work = []
+    for c, x, d, dx in zip(trees, exps, dw, de):
+        if d["err"] is not None or dx["err"] is not None:
+            if (d["err"] is None) != (dx["err"] is None):
+                ctx.violation("windowed_err", {"stream": "S-strl-windowed", "case": c, "windowed": d["err"], "expansion": dx["err"],
+                                               "driver_input": driver_text(c, []),
+                                               "what": "lowering fails for the WindowedChoose tree or its expansion, not both"})
+            continue
+        x["f13"] = False
+        x["f14"] = flt_signature(x)
+        sols, _ = all_solutions(d, cap, ctx.seed)
+        work.append((c, x, d, sols))
+        if x["f14"] or f15_signature(x):
+            stats["skipped_f14_f15"] += 1
+            continue
+        ow, oe, br = model_optimum(d), model_optimum(dx), brute_optimum(x)
+        stats["optimum_checks"] += 1
+        if not (ow == oe == br):
+            ctx.violation("windowed_opt%d" % len(work), {"stream": "S-strl-windowed", "case": c, "expansion": x["tree"],
+                                                         "optimum_windowed": ow, "optimum_expansion": oe, "brute_force": br,
+                                                         "driver_input": driver_text(c, []),
+                                                         "what": "the optimum for a WindowedChoose differs from its documented expansion"})
+    try:
+        outs = run_driver(exe, "".join(driver_text(c, sols) for c, x, d, sols in work), len(work))
+    except DriverError as e:
+        ctx.broken.append({"kind": "tie", "name": "strl-driver-windowed2", "detail": str(e)[-1200:]})
+        return
+    mon = []
+    for (c, x, d, sols), o in zip(work, outs):
+        for vals, sres in zip(sols, o["sols"]):
+            try:
+                exp = canon_solution(d, sres, vals)
+            except CanonError as e:
+                ctx.broken.append({"kind": "tie", "name": "strl-windowed-readback", "detail": str(e)[:400]})
+                continue
+            stats["solutions"] += 1
+            xm = dict(x, windowed_tree=c["tree"], wtext=driver_text(c, [vals]))
+            mon.append((xm, d, vals, exp[6], exp))
+    ctx.cov["input_distribution"]["windowed_stage"] = stats
+    run_monitors(ctx, mon, model_ok, prefix="S-strl-windowed-")
+    # finding F16: options in the past
+    try:
+        d = run_driver(exe, F16_WITNESS_TEXT, 1)[0]
+        if d["err"] is None:
+            want = {"e1_using_partition_1_at_0": 1, "e1_window_indicator": 1, "e1_end_time": 2}
+            vals = [1 if re.match(r"^e1_placed_at_0_for_", v[0]) else want.get(v[0], 0) for v in d["vars"]]
+            o = run_driver(exe, F16_WITNESS_TEXT.replace("END\n", "ASSIGN %d %s\nEND\n" % (len(vals), " ".join(map(str, vals)))), 1)[0]
+            pl = o["sols"][0]["placements"]
+            if py_sat(d, vals) and pl and pl[0]["start"] < 3:
+                ctx.known("F16", "WindowedChooseExpression::parse (Expression.cpp:769-819) only compares the current time with the END "
+                                 "of the window: with now = 3 a window [0,6] at granularity 2 still offers the start times 0 and 2; the "
+                                 "assignment placed_at_0 = 1 satisfies the model and reads back as a placement [%d,%d) in the past; its "
+                                 "documented expansion (one Choose per start time) gives those no utility (Expression.cpp:528-535)"
+                          % (pl[0]["start"], pl[0]["end"]))
+    except (DriverError, KeyError, IndexError):
+        pass
+
+
+def nodes_w(t):
+    return [t] if t[0] == "W" else nodes(t) if t[0] in ("C", "A") else \
+        [t] + [n for c in (t[2] if t[0] in ("MIN", "MAX", "OBJ") else [t[2], t[3]] if t[0] == "LT" else [t[4]]) for n in nodes_w(c)]
